@@ -290,7 +290,9 @@ func ovModel(cs *ovCase, w, in, ad, prefix region) (expectation, string) {
 			return mustPanic, "overlap of the appended output and the additional data"
 		}
 		if anyOverlap(prefix, ad) {
-			return either, "additional data overlaps dst[:len(dst)] (cipher.AEAD: dst and additionalData may not overlap; harmless)"
+			// the record-layer idiom Seal(rec[:5], nonce, rec[5:], rec[:5]) (crypto/tls does this): the
+			// existing dst prefix is only preserved, never written, so AD inside it must work on every path
+			return mustWork, ""
 		}
 	case ovAEADOpen:
 		body := region{in.at, in.n - 16}
@@ -305,7 +307,7 @@ func ovModel(cs *ovCase, w, in, ad, prefix region) (expectation, string) {
 			return mustPanic, "overlap of the appended output and the additional data"
 		}
 		if anyOverlap(prefix, ad) {
-			return either, "additional data overlaps dst[:len(dst)]"
+			return mustWork, "" // Open(rec[:5], nonce, rec[5:], rec[:5]): AD in the preserved dst prefix
 		}
 	case ovNaclSeal:
 		if anyOverlap(w, in) {
@@ -837,6 +839,41 @@ func TestC53(t *testing.T) {
 		}
 	}
 	c.Exhaustive("AEAD Seal/Open x |msg| in {0,1,16,64,200} x |AD| in {1,13,40} x AD offset across the output (calls, all shards)", idx2)
+	// 2b. AD relative to the existing dst prefix (legal: the prefix is preserved, never written): identical to it
+	// (record-layer idiom, in place and with the input elsewhere), partly overlapping it, for every capacity class
+	idx2b := 0
+	for oi := range ops {
+		op := &ops[oi]
+		if !op.hasAD {
+			continue
+		}
+		for _, n := range []int{0, 1, 15, 16, 17, 64, 200, 321, 1000} {
+			for _, dl := range []int{5, 13} {
+				for _, adp := range [][2]int{{0, dl}, {0, dl - 1}, {1, dl - 1}, {-3, 5}, {dl - 2, 2}} {
+					for vi, off := range []int{0, 0, 3000, 3000} {
+						idx2b++
+						if !ev.Mine(idx2b) {
+							continue
+						}
+						cs := ovCase{op: op, n: n, off: off, dl: dl, adMode: "ad=overlap-dst-prefix", adOff: adp[0], adLen: adp[1]}
+						if vi%2 == 0 {
+							cs.capCls = "cap=exact"
+						} else {
+							cs.capCls, cs.slack = "cap=more", 1+n%19
+						}
+						runOn(&cs, func(what string) {
+							c.Violation(what, "")
+							t.Fatalf("VF-VIOLATION: property=C53 %s", what)
+						})
+						if adp[0] == 0 && adp[1] == dl {
+							c.Class("ad=identical-to-dst-prefix(record-layer idiom)")
+						}
+					}
+				}
+			}
+		}
+	}
+	c.Exhaustive("AEAD Seal/Open x 9 lengths x len(dst) in {5,13} x AD {identical to, inside, partly before, at the end of} the dst prefix x {in place, input elsewhere} x capacity {exact, more} (calls, all shards)", idx2b)
 	if t.Failed() {
 		return
 	}
